@@ -101,6 +101,10 @@ def label_of(o):
     return str(o)
 
 
+class PlainLabel(str):
+    """A str subclass that is not a NavigableString."""
+
+
 class Forest:
     """Registry of live objects with stable numeric ids (creation order as the model allocates)."""
 
@@ -138,7 +142,11 @@ class Forest:
         return self.add(o)
 
     def arg(self, a):
-        return self.objs[a[1]] if a[0] == 0 else a[1]
+        if a[0] == 0:
+            return self.objs[a[1]]
+        # a plain-string argument: every other one is handed over as an instance of a str subclass (a str-based Enum member,
+        # a markupsafe-like wrapper ...) - to the editing calls it is a plain string all the same
+        return PlainLabel(a[1]) if len(a[1]) % 2 == 1 else a[1]
 
     def apply(self, op):
         """op in the model's encoding. Returns 0 ok / 1 ValueError / 'EXC:...'"""
@@ -177,7 +185,7 @@ class Forest:
                 elif c == 11:
                     o[op[1]].clear(decompose=bool(op[2]))
                 elif c == 12:
-                    o[op[1]].string = op[2]
+                    o[op[1]].string = PlainLabel(op[2]) if len(op[2]) % 2 == 1 else op[2]
                 elif c == 13:
                     o[op[1]].smooth()
                 elif c == 14:
